@@ -116,6 +116,8 @@ def feed(run, h, batch, cust, name, wire, dl, expect_accept, tag):
     if not expect_accept:
         run.check_monitor("bad_reply_refused", t[0] in ("refused", "undecodable"), case)
         run.check_monitor("refusal_leaves_state_bytes_unchanged", t[0] == "undecodable" or t[1] == cust.hex, case)
+        if t[0] == "refused":
+            cust.hex = t[1]      # the history continues with the state the refusal handed back
     else:
         run.check_monitor("honest_reply_accepted", t[0] == "ok", case)
     if dl is not None:
